@@ -16,6 +16,10 @@ EVID = os.path.join(VERIF, "evidence")
 # The registered checks always verify /repo. VERIF_REPO points the harness at another checkout ONLY for the framework's own
 # seeded-change runs (bin/seedmatrix --isolated), so that they do not disturb /repo.
 REPO = os.environ.get("VERIF_REPO", "/repo")
+if REPO != "/repo":
+    # a run of the framework's own seeded-change machinery: its evidence (the evidence of a CHANGED tree) must never land in
+    # /verif/evidence, which describes /repo
+    EVID = os.path.join(VERIF, ".scratch", "evidence-of-changed-trees")
 TLA_CP = "/opt/veriftools/tla/tla2tools.jar:/opt/veriftools/tla/CommunityModules-deps.jar"
 NCPU = os.cpu_count() or 4
 
